@@ -127,7 +127,7 @@ static bool gen_input(Rng& g, PolyInput& in) {
 }
 
 // ---------------------------------------------------------------- one case
-struct Params { int jt; Q delta, ml, arc; bool rev; bool negative_convention; int api; };
+struct Params { int jt; Q delta, ml, arc; bool rev; bool negative_convention; int api; int pointless_group = 0; };
 
 static Paths64 run_real(const PolyInput& in, const Paths64& paths, const Params& pr) {
   JoinType jt = (JoinType)pr.jt;
@@ -137,13 +137,17 @@ static Paths64 run_real(const PolyInput& in, const Paths64& paths, const Params&
     case 0: return InflatePaths(paths, d, jt, EndType::Polygon, ml, arc);
     case 1: case 4: case 5: {
       ClipperOffset co(ml, arc, pr.api == 5, pr.rev);
+      // a Polygon group without any point (before / after the real one) has no orientation and must change nothing
+      if (pr.pointless_group == 1) co.AddPaths(Paths64{Path64()}, jt, EndType::Polygon);
       co.AddPaths(paths, jt, EndType::Polygon);
+      if (pr.pointless_group == 2) co.AddPaths(Paths64{Path64(), Path64()}, JoinType::Round, EndType::Polygon);
       if (pr.api == 4) { Paths64 junk; co.Execute(-d * 0.5 + 3, junk); co.Execute(d, junk); }  // the object is used before
       co.Execute(d, sol);
       return sol;
     }
     case 2: {
       ClipperOffset co(ml, arc, false, pr.rev);
+      if (pr.pointless_group == 1) co.AddPaths(Paths64{Path64()}, jt, EndType::Polygon);
       co.AddPaths(paths, jt, EndType::Polygon);
       PolyTree64 tree;
       co.Execute(d, tree);
@@ -154,6 +158,7 @@ static Paths64 run_real(const PolyInput& in, const Paths64& paths, const Params&
       Paths64 g0, g1;
       for (size_t i = 0; i < paths.size(); ++i) (in.group[i] == 0 ? g0 : g1).push_back(paths[i]);
       co.AddPaths(g0, jt, EndType::Polygon);
+      if (pr.pointless_group) co.AddPaths(Paths64{Path64()}, jt, EndType::Polygon);
       co.AddPaths(g1, jt, EndType::Polygon);
       co.Execute(d, sol);
       return sol;
@@ -166,8 +171,11 @@ static void do_case(Rng& g, const PolyInput& in, Params pr, const std::string& c
   std::vector<int> grp = in.group;
   // presentation: path order and start vertices are arbitrary
   for (size_t i = paths.size(); i > 1; --i) { size_t j = g.next() % i; std::swap(paths[i - 1], paths[j]); std::swap(grp[i - 1], grp[j]); }
-  for (auto& p : paths) std::rotate(p.begin(), p.begin() + (g.next() % p.size()), p.end());
+  for (auto& p : paths) std::rotate(p.begin(), p.begin() + (g.next() % p.size()), p.end());  // (no empty path yet)
   if (pr.negative_convention) for (auto& p : paths) std::reverse(p.begin(), p.end());
+  // empty paths anywhere in the list are ignored by the library
+  int empties = 0;
+  while (g.chance(8)) { size_t at = g.next() % (paths.size() + 1); paths.insert(paths.begin() + at, Path64()); grp.insert(grp.begin() + at, 0); ++empties; }
   PolyInput shuffled = in; shuffled.paths = paths; shuffled.group = grp;
   if (pr.api == 3 && in.outers < 2) pr.api = 1;
   if (pr.api == 0) pr.rev = false;
@@ -178,12 +186,13 @@ static void do_case(Rng& g, const PolyInput& in, Params pr, const std::string& c
   double f = pr.jt == 3 ? std::max(pr.ml.d(), 1.41422) : (pr.jt == 0 ? 1.41422 : 1.0);
   double tol = arc_eff + 2 + 0.001 * ad * f;
   ProbeGen pg(g);
-  Rect64 b = bounds_of(paths);
+  Rect64 b = bounds_of(paths);  // empty paths contribute nothing
   pg.uniform(b, 2 * ad * f + 10, 30);
   std::vector<double> radii = {ad, ad, ad * f};
   if (ad < 0.5) radii = {1.0, 3.0, (double)in.S / 10};
   for (int i = 0; i < 70; ++i) {
     const Path64& p = paths[g.next() % paths.size()];
+    if (p.empty()) continue;
     size_t k = g.next() % p.size();
     if (i % 3 == 2) pg.near_pt(p[k], radii, tol);
     else pg.near_seg(p[k], p[(k + 1) % p.size()], radii, tol);
@@ -205,6 +214,8 @@ static void do_case(Rng& g, const PolyInput& in, Params pr, const std::string& c
   stat("case.api." + std::to_string(pr.api));
   stat(pr.negative_convention ? "case.convention.negative" : "case.convention.positive");
   if (pr.rev) stat("case.reverse_solution");
+  if (empties) stat("input.with_empty_paths");
+  if (pr.pointless_group && pr.api != 0) stat("case.pointless_polygon_group");
   stat("input.kind." + in.kind);
   stat("input.paths", (long long)paths.size());
   stat("input.holes", in.holes);
@@ -239,6 +250,7 @@ int main(int argc, char** argv) {
     pr.rev = g.chance(30);
     pr.negative_convention = g.chance(40);
     pr.api = (int)(g.next() % 6);
+    pr.pointless_group = g.chance(15) ? (int)g.range(1, 2) : 0;
     int c = (int)(g.next() % 20);
     std::string cls;
     int64_t eighths;
